@@ -104,7 +104,6 @@ def execute(ctx, case):
     from gffutils.feature import feature_from_line
 
     m = model_of(case)
-    kind = case.get("kind", "gtf")
     lines = m["lines"]
     dit, dig = bool(case["dit"]), bool(case["dig"])
     tkey, gkey, sub = m["tkey"], m["gkey"], m["subfeature"]
@@ -132,7 +131,7 @@ def execute(ctx, case):
     else:
         if len(lines) <= int(case["checklines"]) + 2:
             raise AssertionError("harness: one-shot case with too few features")
-        rows = text.splitlines()
+        rows = [r for r in text.split("\n") if r]
         if how == "generator":
             data = (feature_from_line(r) for r in rows)
         elif how == "iterator":
@@ -391,7 +390,7 @@ def run(ctx):
             one(ctx, {"kind": "gtf-oneshot", "model": m, "how": how, "checklines": cl, "dit": dit, "dig": dig,
                       "db": "file" if rng.random() < 0.15 else "memory"}, m)
     # -- the basic workload --------------------------------------------------------------------------------------------
-    for _ in range(ctx.budget(640, 16000)):
+    for _ in range(ctx.budget(600, 16000)):
         m = G.model(rng)
         dbkind = "file" if rng.random() < 0.15 else "memory"
         for dit in (False, True):
